@@ -231,7 +231,14 @@ fn run_dir(c: &DirCase, sink: &mut Sink) -> (Verdict, Option<u64>, Value) {
             }
         }
         (Err(e), Err(errno)) => {
-            if e.raw_os_error() != Some(*errno) {
+            // "fails the way opening that file fails": same errno, or (if the implementation builds
+            // its own io::Error) the same error kind
+            let kind_matches = match *errno {
+                ENOENT => e.kind() == std::io::ErrorKind::NotFound,
+                ENOTDIR => e.kind() == std::io::ErrorKind::NotADirectory,
+                _ => false,
+            };
+            if e.raw_os_error() != Some(*errno) && !kind_matches {
                 return (Verdict::viol(format!("wrong-error|want={}", errno), format!("get({:?}) failed with {:?}, opening that path fails with errno {}", show(&c.path), e, errno)), None, desc);
             }
             sink.count(if *errno == ENOENT { "failed_enoent" } else { "failed_enotdir" });
